@@ -522,6 +522,9 @@ func (x *Exec) applyCallee(st *State, ins ssa.Instruction, c *ssa.CallCommon, ar
 	}
 	pre := st.clone()
 	var res Value
+	if !ctr.Pure {
+		x.bumpTop(st) // the callee may allocate
+	}
 	switch {
 	case ctr.Pure:
 		var flat []Term
